@@ -616,7 +616,32 @@ func Forall(vars []*Term, body *Term, pats ...[]*Term) *Term {
 		return body
 	}
 	vars, body, pats = canonBound(vars, body, pats)
-	return TS.mk('q', "forall", SBool, []*Term{body}, vars, pats)
+	// a pattern may not contain ite / boolean structure (the simplifier can introduce it): drop such patterns
+	var okPats [][]*Term
+	for _, p := range pats {
+		good := true
+		for _, x := range p {
+			if containsOp(x, "ite") || x.sort == SBool && x.kind == 'a' && (x.op == "and" || x.op == "or" || x.op == "not" || x.op == "=") {
+				good = false
+			}
+		}
+		if good {
+			okPats = append(okPats, p)
+		}
+	}
+	return TS.mk('q', "forall", SBool, []*Term{body}, vars, okPats)
+}
+
+func containsOp(t *Term, op string) bool {
+	if t.kind == 'a' && t.op == op {
+		return true
+	}
+	for _, a := range t.args {
+		if containsOp(a, op) {
+			return true
+		}
+	}
+	return false
 }
 
 // canonBound renames bound variables to names that depend only on nesting depth, position and
@@ -925,4 +950,19 @@ func termQuantified(t *Term) bool {
 		return false
 	}
 	return rec(t)
+}
+
+// debugTerm prints a term up to a depth (development aid).
+func debugTerm(t *Term, depth int) string {
+	if len(t.args) == 0 || depth == 0 {
+		if len(t.args) > 0 {
+			return "(" + t.op + " …)"
+		}
+		return t.op
+	}
+	s := "(" + t.op
+	for _, a := range t.args {
+		s += " " + debugTerm(a, depth-1)
+	}
+	return s + ")"
 }
